@@ -13,6 +13,7 @@ from mici.errors import (
     Error,
     HamiltonianDivergenceError,
     IntegratorError,
+    LinAlgError,
     NonReversibleStepError,
 )
 from mici.utils import LogRepFloat
@@ -298,7 +299,11 @@ class MetropolisIntegrationTransition(IntegrationTransition):
             # Reverse integration direction of proposal to form an involution
             state_p.dir *= -1
         if state_p is not state:
-            h_final = self.system.h(state_p)
+            try:
+                h_final = self.system.h(state_p)
+            except (ValueError, LinAlgError):
+                # Non-finite values in state make Hamiltonian undefined so always reject
+                h_final = np.nan
             h_diff = h_init - h_final
             # Explicitly check if h_diff is NaN as min(0, NaN) = 0
             accept_prob = 0.0 if np.isnan(h_diff) else np.exp(min(0, h_diff))
@@ -667,7 +672,7 @@ class DynamicIntegrationTransition(IntegrationTransition):
                 # default to assuming valid and then check for divergence
                 terminate = False
                 self._check_divergence(h, aux_vars)
-            except IntegratorError as e:
+            except (IntegratorError, ValueError, LinAlgError) as e:
                 _process_integrator_error(e, stats)
                 terminate, tree, proposal = True, None, None
             return terminate, tree, proposal
